@@ -109,3 +109,19 @@ package imageblk
 //@   prop C11
 //@   structural
 
+
+// PostExtents (C17: the advertised extents cover every written voxel, at every version): extents are
+// stored per version, so every successful call has read THIS version's stored extents and applied
+// AdjustPoints to them - it never answers from the instance-wide cache d.Extents, which reflects whichever
+// version was written last.
+//@ func Data.PostExtents
+//@   prop C17
+//@   requires d != nil && ctx != nil
+//@   safety_off
+//@   calls_havoc
+//@   modifies *
+//@   ghost gotStored bool = false
+//@   ghost adjusted bool = false
+//@   ghostset after "data, err := store.Get(ctx, MetaTKey())": gotStored = true
+//@   ghostset after "if mod := extents.AdjustPoints(start, end); mod {": adjusted = gotStored
+//@   ensures result == nil ==> gotStored && adjusted
